@@ -44,4 +44,28 @@ def neg (R : RepOps) (x : SNum) : Res SNum := do
   let r ← R.neg x.rep
   pure ⟨r, x.exp⟩
 
+/-- conversion between scaled numbers of the same radix (`scaled/convert_operator.h`,
+integer source and destination): `static_cast<Result>(scale<eS - eD, Radix>(from))` -/
+def convert (R : RepOps) (radix : Nat) (src : SNum) (dstRep : Ty) (dstExp : Int) : Res SNum :=
+  if src.exp = dstExp then do
+    -- `scale<0>` multiplies by `power_value<_, 0, _>() = 1`; the model elides that identity
+    let r ← R.cast dstRep src.rep
+    pure ⟨r, dstExp⟩
+  else do
+  let scaled ← R.scale (src.exp - dstExp) radix src.rep
+  let r ← R.cast dstRep scaled
+  pure ⟨r, dstExp⟩
+
+/-- comparison (`scaled_integer/operators.h`): the operand with the larger exponent is converted
+to the smaller exponent in the type `decltype(rep << constant<shift>)`, then the
+representations are compared -/
+def cmp (R : RepOps) (op : CmpOp) (radix : Nat) (x y : SNum) : Res Bool :=
+  if x.exp = y.exp then R.cmp op x.rep y.rep
+  else if x.exp < y.exp then do
+    let y' ← convert R radix y (R.shlConstTy y.rep.1 (y.exp - x.exp).toNat) x.exp
+    R.cmp op x.rep y'.rep
+  else do
+    let x' ← convert R radix x (R.shlConstTy x.rep.1 (x.exp - y.exp).toNat) y.exp
+    R.cmp op x'.rep y.rep
+
 end Cnl.Scaled
